@@ -20,6 +20,9 @@ type Run struct {
 	Tier     string
 	Cases    int
 	Failures []Failure
+	// Only, if non-empty, restricts the report to the named checks (a check matches if its name is listed or
+	// starts with a listed name followed by '/'). It lets one case generator serve several properties.
+	Only []string
 }
 
 func New(id string) *Run {
@@ -34,6 +37,17 @@ func New(id string) *Run {
 }
 
 func (r *Run) Fail(check, input, detail string) {
+	if len(r.Only) > 0 {
+		keep := false
+		for _, o := range r.Only {
+			if check == o || (len(check) > len(o) && check[:len(o)+1] == o+"/") {
+				keep = true
+			}
+		}
+		if !keep {
+			return
+		}
+	}
 	if len(r.Failures) < 20 {
 		if len(input) > 2000 {
 			input = input[:2000] + "..."
